@@ -1,6 +1,6 @@
 #!/bin/bash
 # runs every seeded mutation against its own property's check (and a few neighbours); appends to seeded/RESULTS.txt
-cd /verif
+cd "$(dirname "$0")/.."
 out=seeded/RESULTS.txt
 echo "# $(date) HEAD=$(git -C /repo rev-parse --short HEAD) verif=$(git rev-parse --short HEAD)" >> $out
 for d in seeded/*/; do
@@ -9,6 +9,7 @@ for d in seeded/*/; do
   case "$s" in revert-*) continue;; esac
   prop=${s%%-*}
   [ -n "$ONLY" ] && [[ "$s" != $ONLY* ]] && continue
+  [ -n "$SUFFIX" ] && [[ "$s" != *$SUFFIX ]] && continue
   grep -q "\"$prop\"" MANIFEST.json || { echo "$s: property $prop not claimed yet" >> $out; continue; }
   res=$(tools/seedtest.sh $d/patch.diff $prop 2>&1 | tr '\n' ' ')
   echo "$s -> $res" >> $out
